@@ -21,11 +21,17 @@ import os
 from vlib import core
 from vlib.core import sh2
 
-PROC = {0: "baseline", 1: "ext12", 2: "prog8", 3: "prog12", 4: "lossless", 5: "baseline-fill-garbage"}
+PROC = {0: "baseline", 1: "ext12", 2: "prog8", 3: "prog12", 4: "lossless", 5: "baseline-fill-garbage",
+        6: "seq-shared-qslot-dqt-between-scans", 7: "prog-shared-qslot-dqt-between-scans"}
+
+
+def early_api(c1, rows, reps):
+    """harness schedule family: c1 consume_input calls, reps early passes of <= rows rows (255 = all), then final"""
+    return (1 << 28) + (c1 << 12) + (rows << 4) + reps
 
 
 def gen_params(rng, i, big):
-    proc = [0, 2, 1, 3, 4, 5][i % 6] if i < 12 else rng.choice([0, 0, 1, 2, 2, 3, 4, 5])
+    proc = [0, 2, 6, 7, 1, 3, 4, 5][i % 8] if i < 16 else rng.choice([0, 0, 1, 2, 2, 3, 4, 5, 6, 7])
     nc = rng.choice([1, 3, 3, 3, 4])
     sub = rng.below(5)
     if proc == 4:
@@ -37,6 +43,8 @@ def gen_params(rng, i, big):
     else:
         q = rng.choice([25, 50, 75, 90, 100])
         rst = rng.choice([0, 0, 1, 2, 3, 7, -1])
+    if proc in (6, 7):
+        nc = 3
     if big:
         w, h = rng.range(40, 110), rng.range(30, 90)
     else:
@@ -143,6 +151,8 @@ def run(ctx):
         streams.append(dict(hex=t[3], params=p, origin=gen_line(0, p)))
     ctx.log("streams: %d (%d bytes total)" % (len(streams), sum(len(s["hex"]) // 2 for s in streams)))
 
+    import time
+    tm = {"oracle": 0.0, "model-hdr": 0.0}
     total_sched = 0
     corr = 0
     disagree = 0
@@ -174,11 +184,24 @@ def run(ctx):
                     cmds.append("rand 0 %d %d %d %d" % (api, sv, srng.below(1 << 40), ctx.n(40, 150) if n <= 9000 else ctx.n(8, 30)))
                     plan.append(("rand", api, sv))
                 # buffered-image schedules (api >= 2 = schedule seed): whole buffer and suspending source
+                # reference for every buffered-image schedule: the NON-buffered whole-buffer decode
                 for k in s.get("sched", []) + [2 + srng.below(1 << 20) for _ in range(ctx.n(6, 20))]:
-                    cmds.append("ref 0 %d %d" % (k, sv)); plan.append(("sched", 1, sv))
-                    cmds.append("one 0 %d %d %d" % (k, sv, srng.choice([1, 2, 5, 64, 1000]))); plan.append(("sched", 1, sv))
-                    cmds.append("rand 0 %d %d %d %d" % (k, sv, srng.below(1 << 40), 3)); plan.append(("rand", k, sv, 1))
+                    cmds.append("ref 0 %d %d" % (k, sv)); plan.append(("sched", 0, sv))
+                    cmds.append("one 0 %d %d %d" % (k, sv, srng.choice([1, 2, 5, 64, 1000]))); plan.append(("sched", 0, sv))
+                    cmds.append("rand 0 %d %d %d %d" % (k, sv, srng.below(1 << 40), 3)); plan.append(("rand", k, sv, 0))
+                # early / abandoned / repeated output passes at chosen points of the input (all points for the
+                # streams whose Q-table slots are redefined between scans)
+                if proc in (6, 7) and sv == savecfgs[0]:
+                    pts = [(c1, rows, reps) for c1 in range(0, 44) for rows in (0, 2, 255) for reps in (1, 2)]
+                else:
+                    pts = [(srng.below(40), srng.choice([0, 1, 3, 255]), srng.choice([1, 1, 2, 3])) for _ in range(ctx.n(6, 20))]
+                for (c1, rows, reps) in pts:
+                    cmds.append("ref 0 %d %d" % (early_api(c1, rows, reps), sv)); plan.append(("sched", 0, sv))
+                for (c1, rows, reps) in pts[::ctx.n(13, 5)]:
+                    cmds.append("one 0 %d %d %d" % (early_api(c1, rows, reps), sv, srng.choice([1, 3, 64]))); plan.append(("sched", 0, sv))
+            t0 = time.time()
             rc, res, err = r.run(cmds)
+            tm["oracle"] += time.time() - t0
             res = res[1:]
             if rc != 0 or len(res) < len(plan):
                 idx = min(len(res), len(plan) - 1)
@@ -220,11 +243,11 @@ def run(ctx):
                         if got != refs[refkey]:
                             report(ctx, s, fl, kind, "ref 0 %d %d" % (api, sv), refs[refkey], got, "ref 0 %d %d" % refkey)
                 ctx.count("dec-%s-%s" % (kind, what), 1, (kind, what, refs.get((api, sv), "")[:400], cmd[:12]))
-            # buffered canonical vs standard API (informative: both are complete decodes)
+            # buffered canonical (all input, then one pass) must equal the standard API
             for sv in dict.fromkeys(savecfgs):
                 a, b = dfields(refs[(0, sv)]), dfields(refs[(1, sv)])
-                if a.get("pix") != b.get("pix"):
-                    ctx.cov["bufimage_final_differs_from_std"] = ctx.cov.get("bufimage_final_differs_from_std", 0) + 1
+                if refs[(0, sv)] != refs[(1, sv)]:
+                    report(ctx, s, fl, kind, "ref 0 1 %d" % sv, refs[(0, sv)], refs[(1, sv)], "ref 0 0 %d" % sv)
             if si % 9 == 0 and fl == flavours[0]:
                 ctx.sample({"stream": s["origin"][:100], "bytes": n, "ref": refs[(0, savecfgs[0])][:200]})
 
@@ -234,19 +257,19 @@ def run(ctx):
                 end = first_sos_end(b)
                 pre = s["hex"][:2 * end]
                 mcmds, hcmds, metas = [], [], []
-                for sv in (0, 1, 2, 3):
-                    if end > 3000 and sv == 1:
-                        pass
+                for sv in (0, srng.choice([1, 2, 3])) if not ctx.thorough() else (0, 1, 2, 3):
                     parts = ["", " ".join(str(srng.range(0, 60)) for _ in range(end // 20 + 5)),
                              " ".join(str(srng.range(150, 900)) for _ in range(end // 300 + 3))]
-                    if end <= 1500:
+                    if end <= 1000:
                         parts.append("1 " * end)
                     for pt in parts:
                         mcmds.append("m %d | %s | %s" % (sv, pre, pt)); metas.append((sv, pt))
-                    hcmds.append("hdr 0 %d" % sv)
+                hcmds = ["hdr 0 %d" % sv for sv in (0, 1, 2, 3)]
                 rc, hres, err = r.run(["load 0 " + s["hex"]] + hcmds)
                 hres = hres[1:]
+                t0 = time.time()
                 rc2, mres, err2 = sh2([drv], input=("\n".join(mcmds) + "\n").encode(), timeout=600)
+                tm["model-hdr"] += time.time() - t0
                 mres = mres.decode().split("\n")
                 if rc2 != 0 or len(mres) < len(mcmds):
                     ctx.broken_tie("model-driver", "extracted model failed: rc=%d %s" % (rc2, err2[-200:]))
@@ -270,7 +293,7 @@ def run(ctx):
     if drv:
         crng = core.SplitMix64(ctx.seed * 31337 + 3)
         sp = []
-        for i in range(ctx.n(14, 120)):
+        for i in range(ctx.n(9, 120)):
             proc = crng.choice([0, 0, 0, 1])
             nc = crng.choice([1, 3, 3, 4])
             sp.append(dict(proc=proc, w=crng.range(1, 26), h=crng.range(1, 20), nc=nc, sub=crng.below(5),
@@ -286,9 +309,11 @@ def run(ctx):
                 continue
             hx = res[2 * i].split()[3]
             n = len(hx) // 2
-            for pt in ("", "1 " * min(n, 1200), " ".join(str(crng.range(0, 12)) for _ in range(60)) + " 5000"):
+            for pt in ("", "1 " * min(n, ctx.n(350, 1200)), " ".join(str(crng.range(0, 12)) for _ in range(60)) + " 5000"):
                 mcmds.append("s | %s | %s" % (hx, pt)); metas.append((p_, res[2 * i + 1], pt))
+        t0 = time.time()
         rc2, mres, err2 = sh2([drv], input=("\n".join(mcmds) + "\n").encode(), timeout=900)
+        tm["model-scan"] = time.time() - t0
         mres = mres.decode().split("\n")
         if rc2 != 0 or len(mres) < len(mcmds):
             ctx.broken_tie("model-driver", "extracted scan model failed: rc=%d %s" % (rc2, err2[-200:]))
@@ -314,8 +339,10 @@ def run(ctx):
         rst = erng.choice([0, 0, 1, 2, 5, -1])
         bs = erng.range(1, 64) if i % 4 else erng.choice([4096, 1 << 20, 512, 513, 700])
         ecmds.append("enc %d %d %d %d %d %d %d %d %d" % (w, h, nc, erng.below(5), q, rst, erng.below(1 << 30), bs, erng.below(1 << 40)))
+    t0 = time.time()
     for fl in flavours:
         rc, res, err = Runner(ctx, exes[fl], fl).run(ecmds)
+        tm["enc"] = time.time() - t0
         if rc != 0 or len(res) < len(ecmds):
             idx = min(len(res), len(ecmds) - 1)
             ctx.violation("encoder crashed/aborted (%s build, rc=%d): %s" % (fl, rc, err[-300:]),
@@ -332,6 +359,8 @@ def run(ctx):
         ctx.cov["traces_validated_against_impl"] = corr
     ctx.cov["model_impl_disagreements"] = disagree
     ctx.cov["schedules"] = total_sched
+    ctx.cov["seconds"] = {k: round(v, 1) for k, v in tm.items()}
+    ctx.log("seconds:", ctx.cov["seconds"])
     ctx.cov["rule"] = ("streams of every Huffman process (baseline, 12-bit extended, progressive 8/12-bit, lossless 2..16 bit, "
                        "baseline with fill bytes/garbage between markers) x restart intervals x COM/APPn markers (0..65533 bytes) x "
                        "jpeg_save_markers configurations; schedules: stdio, 1-byte chunks, every split position (all for streams <= 4 kB), "
